@@ -93,7 +93,8 @@ def jobs(tier, seed):
             js.append(Job(n, f"any material, any key: make_move of a {KINDS[kind]} ({'white' if side == 0 else 'black'}) changes the key by exactly the XOR of the changed "
                              "components; undo restores", gen=src, timeout=t, mem_gb=20, checks="functional", witness=False,
                           params={"moving_kind": KINDS[kind], "white_to_move": side == 0}))
-    for kind in list(range(6)) + [7]:
+    # the oracle-only glue lemma takes 20+ min per moving kind; quick runs the null-move case, thorough all kinds
+    for kind in (list(range(6)) + [7]) if tier == "thorough" else [7]:
         sides = (0, 1) if tier == "thorough" else (rnd.randrange(2),)
         for side in sides:
             n, src = case_inst("oracle_delta", kind, side, unwind=66)
@@ -101,7 +102,7 @@ def jobs(tier, seed):
                           gen=src, timeout=t, mem_gb=20, checks="functional", witness=False))
     n, src = inst("hash_is_xor_sum", k, pawns)
     js.append(Job(n, f"real hash() == XOR sum of components, material <= {k} officers per kind and colour, <= {pawns} pawns", gen=src, timeout=t, mem_gb=24,
-                  checks="functional", witness=False, params={"per_kind": k, "pawns": pawns}, unwindset={"xor_sum.0": 66}))
+                  checks="functional", witness=False, params={"per_kind": k, "pawns": pawns}, unwindset={"xor_sum.": 66}))
     if tier == "thorough":
         for kind in ("make", "null"):
             n, src = inst(kind, 1, 2)
